@@ -92,6 +92,15 @@ class DRYConfig:  # pylint: disable=too-many-instance-attributes
             ("min_occurrences", self.min_occurrences),
             ("min_constant_occurrences", self.min_constant_occurrences),
         ]
+        # Language-specific overrides follow the same rule when they are given
+        optional_fields = [
+            ("python.min_occurrences", self.python_min_occurrences),
+            ("typescript.min_occurrences", self.typescript_min_occurrences),
+            ("javascript.min_occurrences", self.javascript_min_occurrences),
+            ("python.min_constant_occurrences", self.python_min_constant_occurrences),
+            ("typescript.min_constant_occurrences", self.typescript_min_constant_occurrences),
+        ]
+        positive_fields += [(name, value) for name, value in optional_fields if value is not None]
         for name, value in positive_fields:
             require_number(name, value)
             if value <= 0:
